@@ -34,7 +34,7 @@ Definition finish (now seg_dur timescale : Z) (o : opts) (ast elapsed : Z) : liv
                | None => DEFAULT_DEPTH
                | Some d => if (d =? 0) || (d <? 0) then DEFAULT_DEPTH else d
                end in
-  let tsbd := if elapsed <? tsbd0 * SEC then Z.quot elapsed SEC else tsbd0 in
+  let tsbd := if elapsed <? tsbd0 * SEC then Z.max 0 (Z.quot elapsed SEC) else tsbd0 in
   let default_mup := Z.max 1 (round_half_even (2 * seg_dur) timescale) in
   let mup := match o_mup o with
              | None => Some default_mup
